@@ -5,6 +5,7 @@ the per-file behaviour (`resolveOk`, `linkOk`) alone — it does not depend on t
 on the order of the requested files or on the interleaving. Proved over ALL runs of the LTS.
 -/
 import PCV.Props.C07
+import PCV.Lemmas.ExecCycle
 namespace PCV.Props.C05
 open PCV.Exec PCV.Props.C07
 
@@ -61,10 +62,10 @@ theorem Kat_congr (w : World) (S : St) (f : File) (t t' : Task) (h : t'.pc = t.p
     Kat w S f t → Kat w S f t' := by
   unfold Kat; rw [h]; exact id
 
-theorem K_of_set (w : World) (s : St) (f : File) (t' : Task) (sem' : Nat) (hK : K w s)
-    (hst : ∀ d, finOk s d → finOk (({ s with sem := sem' } : St).set f t') d)
-    (hnew : Kat w (({ s with sem := sem' } : St).set f t') f t') :
-    K w (({ s with sem := sem' } : St).set f t') := by
+theorem K_of_set (w : World) (s : St) (f : File) (t' : Task) (sem' c' : Nat) (hK : K w s)
+    (hst : ∀ d, finOk s d → finOk (({ s with sem := sem', clock := c' } : St).set f t') d)
+    (hnew : Kat w (({ s with sem := sem', clock := c' } : St).set f t') f t') :
+    K w (({ s with sem := sem', clock := c' } : St).set f t') := by
   intro g tg hg
   by_cases hgf : g = f
   · subst hgf; rw [set_task_same] at hg; cases hg; exact hnew
@@ -83,7 +84,7 @@ theorem K_step (w : World) (s s' : St) (e : Ev) (hK : K w s) (h : step w s e = s
   all_goals (try (simp at h))
   all_goals (try (obtain ⟨h1, h2⟩ := h))
   all_goals (try subst s')
-  all_goals (try (refine K_of_set w s f _ _ hK hst ?_))
+  all_goals (try (refine K_of_set w s f _ _ _ hK hst ?_))
   all_goals (try (simp [Kat]; done))
   all_goals (try (have hk := hK f _ (by assumption); simp_all [Kat]; done))
   · -- release of a finished task: pc unchanged
@@ -133,11 +134,6 @@ theorem K_reachable (w : World) (s : St) (h : Reachable w s) : K w s := by
   induction h with
   | init => intro f t h; simp [init, St.task] at h
   | step _ hs ih => exact K_step w _ _ _ ih hs
-
-/-- reachability along imports -/
-inductive Reach (w : World) : File → File → Prop
-  | refl (f : File) : Reach w f f
-  | step {f d g : File} : d ∈ w.imports f → Reach w d g → Reach w f g
 
 /-- **C05/C06 (success is sound).** If a file's result is ready and successful then every file it
     transitively imports exists, resolved, parsed and linked without error and is itself finished
@@ -215,7 +211,7 @@ theorem M_step (w : World) (s s' : St) (e : Ev) (hM : M w s) (h : step w s e = s
   all_goals (try (simp at h))
   all_goals (try (obtain ⟨h1, h2⟩ := h))
   all_goals (try subst s')
-  all_goals (try (apply pointwise_set (fun g t => Mat w g t) _ _ _ _ hM))
+  all_goals (try (apply pointwise_set (fun g t => Mat w g t) _ _ _ _ _ hM))
   all_goals (try (simp [Mat]; done))
   all_goals (try (refine Mat_of_just _ _ _ (Just_self_bad w f (bad_of_closePanic w f ?_)); simp_all; done))
   all_goals (try (refine Mat_of_just _ _ _ (Just_self_bad w f (bad_of_resolvePanic w f ?_)); assumption))
@@ -224,7 +220,7 @@ theorem M_step (w : World) (s s' : St) (e : Ev) (hM : M w s) (h : step w s e = s
   · -- selfimport
     rename_i hc
     simp only [Bool.and_eq_true, beq_iff_eq] at hc
-    exact Mat_of_just _ _ _ ⟨f, Reach.refl f, Or.inr (reachesCycle_self w f (mem_of_get? _ _ _ hc.1))⟩
+    exact Mat_of_just _ _ _ ⟨f, Reach.refl f, Or.inr (reachesCycle_self w f (mem_of_get? _ _ _ hc.1.1))⟩
   · -- cycle
     rename_i hc
     simp only [Bool.and_eq_true, beq_iff_eq] at hc
@@ -296,7 +292,7 @@ theorem ctxFree_step (w : World) (s s' : St) (e : Ev) (hc : w.cancelable = false
   all_goals (try (simp at h))
   all_goals (try (obtain ⟨h1, h2⟩ := h))
   all_goals (try subst s')
-  all_goals (try (apply pointwise_set (fun _ t => ctxFreeAt t) _ _ _ _ hF))
+  all_goals (try (apply pointwise_set (fun _ t => ctxFreeAt t) _ _ _ _ _ hF))
   all_goals (try (simp [ctxFreeAt]; done))
   all_goals (try (exfalso; simp_all; done))
   · -- release of a finished task
